@@ -774,6 +774,8 @@ type PanicInfo struct {
 	Site string
 }
 
+var mergeFail string
+
 // mergeOutcomes merges two normal outcomes that forked from a common state with
 // entryLen path-condition conjuncts.
 func mergeOutcomes(entryLen int, a, b *Outcome) (*Outcome, bool) {
@@ -792,6 +794,7 @@ func mergeOutcomes(entryLen int, a, b *Outcome) (*Outcome, bool) {
 	gb := And(b.St.pc[entryLen:]...)
 	ret, ok := mergeVal(ga, a.Ret, b.Ret)
 	if !ok {
+		mergeFail = "ret: " + describe(a.Ret) + " vs " + describe(b.Ret)
 		return nil, false
 	}
 	heap := make(map[ObjID]*Object, len(a.St.heap))
@@ -803,6 +806,7 @@ func mergeOutcomes(entryLen int, a, b *Outcome) (*Outcome, bool) {
 		}
 		m, ok := mergeObj(ga, oa, ob)
 		if !ok {
+			mergeFail = fmt.Sprintf("heap obj %d (%s, %s): %s vs %s", id, oa.Site, oa.Typ, describe(oa.Val), describe(ob.Val))
 			return nil, false
 		}
 		heap[id] = m
@@ -876,4 +880,163 @@ func sortedKeys(m map[string]*Term) []string {
 	}
 	sort.Strings(ks)
 	return ks
+}
+
+
+// ---------- garbage collection of callee temporaries (before merging) ----------
+
+// valueRefs reports every heap object directly referenced by v. ok=false if v contains an
+// opaque payload whose references are unknown (then no collection is attempted).
+func valueRefs(v Value, f func(ObjID)) bool {
+	switch x := v.(type) {
+	case nil, *Term, VString:
+		return true
+	case VPtr:
+		if !x.Nil.IsTrue() && x.Obj != 0 {
+			f(x.Obj)
+		}
+		return true
+	case VIface:
+		if x.Nil.IsTrue() {
+			return true
+		}
+		return valueRefs(x.Val, f)
+	case VStruct:
+		for _, e := range x.Fields {
+			if !valueRefs(e, f) {
+				return false
+			}
+		}
+		return true
+	case VArray:
+		for _, e := range x.Elems {
+			if !valueRefs(e, f) {
+				return false
+			}
+		}
+		return true
+	case VTuple:
+		for _, e := range x.Elems {
+			if !valueRefs(e, f) {
+				return false
+			}
+		}
+		return true
+	case VSlice:
+		if x.Obj != 0 {
+			f(x.Obj)
+		}
+		return true
+	case VMap:
+		if x.Obj != 0 {
+			f(x.Obj)
+		}
+		return true
+	case VFunc:
+		for _, b := range x.Bindings {
+			if !valueRefs(b, f) {
+				return false
+			}
+		}
+		return true
+	case VErr:
+		for _, w := range x.Wraps {
+			if !valueRefs(w, f) {
+				return false
+			}
+		}
+		return true
+	case VOpaque:
+		switch d := x.Data.(type) {
+		case nil, string, float64, *regexProg, urlData:
+			return true
+		case *RVal:
+			if d == nil {
+				return true
+			}
+			if d.Addr != nil {
+				f(d.Addr.Obj)
+			}
+			return valueRefs(d.Val, f)
+		case *mapIter:
+			for _, e := range d.entries {
+				if !valueRefs(e.Key, f) || !valueRefs(e.Val, f) {
+					return false
+				}
+			}
+			return true
+		default:
+			if _, isType := x.Data.(interface{ Underlying() types.Type }); isType {
+				return true
+			}
+			if r, ok := x.Data.(Refser); ok {
+				return r.Refs(f)
+			}
+			return false
+		}
+	}
+	return false
+}
+
+// Refser is implemented by opaque payloads that hold heap references.
+type Refser interface{ Refs(f func(ObjID)) bool }
+
+func objectRefs(o *Object, f func(ObjID)) bool {
+	switch o.Kind {
+	case KCell:
+		return valueRefs(o.Val, f)
+	case KArr:
+		for _, e := range o.Elems {
+			if !valueRefs(e, f) {
+				return false
+			}
+		}
+	case KMap:
+		for _, e := range o.Entries {
+			if !valueRefs(e.Key, f) || !valueRefs(e.Val, f) {
+				return false
+			}
+		}
+	}
+	return true
+}
+
+// collect removes objects allocated at or after `from` that are unreachable from the return
+// value and from older objects (the callee's dead temporaries).
+func (s *State) collect(from ObjID, ret Value) {
+	if s.next <= from {
+		return
+	}
+	live := map[ObjID]bool{}
+	var stack []ObjID
+	mark := func(id ObjID) {
+		if id >= from && id < 1<<29 && !live[id] {
+			live[id] = true
+			stack = append(stack, id)
+		}
+	}
+	if !valueRefs(ret, mark) {
+		return
+	}
+	for id, o := range s.heap {
+		if id < from || id >= 1<<29 {
+			if !objectRefs(o, mark) {
+				return
+			}
+		}
+	}
+	for len(stack) > 0 {
+		id := stack[len(stack)-1]
+		stack = stack[:len(stack)-1]
+		if o, ok := s.heap[id]; ok {
+			if !objectRefs(o, mark) {
+				return
+			}
+		}
+	}
+	for id := range s.heap {
+		if id >= from && id < 1<<29 && !live[id] {
+			delete(s.heap, id)
+		}
+	}
 }
